@@ -148,16 +148,42 @@ pub fn consistent_moves(p: &Pos, f: &SanFields) -> Vec<Mv> {
 }
 
 pub fn resolve(p: &Pos, f: &SanFields) -> SanVerdict {
-    let text = f.text();
-    let cands = consistent_moves(p, f);
-    for m in &cands {
-        if san(p, m) == text {
-            return SanVerdict::Exactly(*m);
+    let table: Vec<(Mv, String)> = p.legal().into_iter().map(|m| (m, san(p, &m))).collect();
+    resolve_with(&table, f)
+}
+
+fn field_match(m: &Mv, f: &SanFields) -> bool {
+    match f {
+        SanFields::Castle { long, .. } => m.is_castle && (file_of(m.to) == 2) == *long,
+        SanFields::Normal { piece, from_file, from_row, takes, target, promo, .. } => {
+            m.piece == piece.unwrap_or(PAWN)
+                && m.to == *target
+                && from_file.map_or(true, |ff| file_of(m.from) == ff)
+                && from_row.map_or(true, |rr| row_of(m.from) == rr)
+                && (!*takes || m.is_capture())
+                && promo.map_or(true, |k| m.promo == k)
         }
     }
-    match cands.len() {
-        1 => SanVerdict::Only(cands[0]),
-        _ => SanVerdict::MustErr,
+}
+
+/// same as `resolve`, with the legal moves and their standard SAN precomputed
+pub fn resolve_with(table: &[(Mv, String)], f: &SanFields) -> SanVerdict {
+    let text = f.text();
+    let mut n = 0;
+    let mut last = None;
+    for (m, s) in table {
+        if field_match(m, f) {
+            if *s == text {
+                return SanVerdict::Exactly(*m);
+            }
+            n += 1;
+            last = Some(*m);
+        }
+    }
+    if n == 1 {
+        SanVerdict::Only(last.unwrap())
+    } else {
+        SanVerdict::MustErr
     }
 }
 
